@@ -53,6 +53,9 @@ func newC13World(dir string) (*c13World, error) {
 	for i, n := range w.names {
 		d := make([]byte, []int{40, 25, 16}[i])
 		rng.Read(d)
+		if n == "b.bin" { // ends in three zero bytes inside its last (partial) slice: data state "zerotail" drops two of them
+			d[len(d)-4], d[len(d)-3], d[len(d)-2], d[len(d)-1] = 0x33, 0, 0, 0
+		}
 		w.prot[n] = d
 	}
 	var err error
@@ -66,6 +69,9 @@ func newC13World(dir string) (*c13World, error) {
 	for i, n := range sm.names {
 		d := make([]byte, []int{10, 7, 3}[i])
 		rng.Read(d)
+		if n == "b.bin" {
+			d[len(d)-4], d[len(d)-3], d[len(d)-2], d[len(d)-1] = 0x33, 0, 0, 0
+		}
 		sm.prot[n] = d
 	}
 	if sm.a2, err = buildArch(filepath.Join(dir, "w2small"), sm.names, sm.prot, 16, 3, 1, "set"); err != nil {
@@ -228,6 +234,12 @@ func (w *c13World) runPar2(dir string, d c13Desc, rng *rand.Rand) (tracelog.M, e
 	if d.Data == "one" {
 		disk["b.bin"] = nil
 	}
+	if d.Data == "zerotail" {
+		// two of the file's trailing zero bytes are gone: every slice is still in place (the last one with its
+		// zero padding at end of file), yet the file is not the original
+		b := w.prot["b.bin"]
+		disk["b.bin"] = append([]byte{}, b[:len(b)-2]...)
+	}
 	if d.Data == "empty" {
 		disk["b.bin"] = []byte{} // emptied, not deleted
 	}
@@ -363,6 +375,12 @@ func (w *c13World) runPar1(dir string, d c13Desc, rng *rand.Rand) (tracelog.M, e
 	}
 	if d.Data == "one" {
 		disk["b.bin"] = nil
+	}
+	if d.Data == "zerotail" {
+		// two of the file's trailing zero bytes are gone: every slice is still in place (the last one with its
+		// zero padding at end of file), yet the file is not the original
+		b := w.prot["b.bin"]
+		disk["b.bin"] = append([]byte{}, b[:len(b)-2]...)
 	}
 	if d.Data == "empty" {
 		disk["b.bin"] = []byte{}
